@@ -23,7 +23,11 @@ var VerifHooks struct {
 
 func verifYield(ctx context.Context, site string, obj any, cmd Completed) {
 	if f := VerifHooks.Yield; f != nil {
-		f(ctx, site, obj, cmd.Commands())
+		var argv []string
+		if !cmd.IsEmpty() {
+			argv = cmd.Commands()
+		}
+		f(ctx, site, obj, argv)
 	}
 }
 
